@@ -1054,7 +1054,8 @@ theorem startLoop_all : ∀ (l : List Blk) (i : Nat), (startLoop i l).2.2 = fals
       simp [ih (i + 1) h, List.range'_succ]
 
 theorem plan_puts_eq (c : Cfg) :
-    (plan c).puts = (putBlocksOf c.blocks (plan c).started (plan c).phase).map (Ev.out · false) := rfl
+    (plan c).puts = (putBlocksOf c.blocks (plan c).started (plan c).phase).flatMap
+      (fun k => Ev.out k false :: chain c.blocks k) := rfl
 
 theorem plan_termTime (c : Cfg) : ∃ x y, (plan c).termTime = (match (plan c).phase with
     | .startFailed | .afterStart | .notStarted => 0
